@@ -2,4 +2,5 @@
 pub mod app;
 pub mod crc;
 pub mod link;
+pub mod objects;
 pub mod transport;
